@@ -905,10 +905,13 @@ void AbstractDOMParser::endElement( const   XMLElementDecl&
     {
         // The content of a fallback element is only of interest when the
         // fallback gets used; it is processed then, as part of the include
-        // element the fallback belongs to.
+        // element the fallback belongs to. Other content of an include
+        // element must stay as it is, too: an include element in there is
+        // either an error the outer include element has to see, or ignored.
         for (DOMNode* ancestor = fCurrentParent; ancestor != 0; ancestor = ancestor->getParentNode())
         {
-            if (XIncludeUtils::isXIFallbackDOMNode(ancestor))
+            if (XIncludeUtils::isXIFallbackDOMNode(ancestor) ||
+                XIncludeUtils::isXIIncludeDOMNode(ancestor))
                 return;
         }
 
